@@ -386,32 +386,39 @@ def afterComplete (c : Config) (location : Location) (m : Mach) : Out (Mach × B
       pure (m, true)
     | _ => .err .rInvalidExpressionTerminator
 
+/-- the `match op_result { … }` of `evaluate_internal`; `k` is "go round the loop again" -/
+def afterOp (k : Eval → Out (Request × Eval)) (s : Eval) (r : OpResult) (m : Mach) : Out (Request × Eval) :=
+  match r with
+  | .piece => k { s with m := m }
+  | .incomplete =>
+    match endOfExpression m with
+    | (eoe, m) =>
+      match eoe && !m.result.isEmpty with
+      | true => .err .rInvalidPiece
+      | false => k { s with m := m }
+  | .complete location => do
+    let (m, extra) ← afterComplete s.cfg location m
+    k { s with m := m, decodes := s.decodes + (if extra then 1 else 0) }
+  | .waiting w r => pure (r, { s with m := m, state := .waiting w })
+
+/-- one trip round the `while !self.end_of_expression()` loop of `evaluate_internal` (or its exit) -/
+def loopBody (k : Eval → Out (Request × Eval)) (s : Eval) : Out (Request × Eval) :=
+  match endOfExpression s.m with
+  | (true, m) => do
+    let m ← finish s.cfg m
+    pure (.complete, { s with m := m, state := .complete })
+  | (false, m) => do
+    let iteration ← bumpIteration s.cfg.mode s.iteration
+    match overLimit s.cfg.maxIterations iteration with
+    | true => .err .rTooManyIterations
+    | false => do
+      let (r, m') ← evaluateOneOperation s.cfg m
+      afterOp k { s with m := m, iteration := iteration, decodes := s.decodes + 1 } r m'
+
 /-- `Evaluation::evaluate_internal` with fuel for the `while` loop -/
 def evaluateInternal : Nat → Eval → Out (Request × Eval)
   | 0, _ => .diverge
-  | fuel + 1, s =>
-    match endOfExpression s.m with
-    | (true, m) => do
-      let m ← finish s.cfg m
-      pure (.complete, { s with m := m, state := .complete })
-    | (false, m) => do
-      let iteration ← bumpIteration s.cfg.mode s.iteration
-      let s := { s with m := m, iteration := iteration }
-      if overLimit s.cfg.maxIterations iteration then .err .rTooManyIterations
-      else do
-      let s := { s with decodes := s.decodes + 1 }
-      let (r, m) ← evaluateOneOperation s.cfg s.m
-      match r with
-      | .piece => evaluateInternal fuel { s with m := m }
-      | .incomplete =>
-        match endOfExpression m with
-        | (eoe, m) =>
-          if eoe ∧ m.result ≠ [] then .err .rInvalidPiece
-          else evaluateInternal fuel { s with m := m }
-      | .complete location => do
-        let (m, extra) ← afterComplete s.cfg location m
-        evaluateInternal fuel { s with m := m, decodes := s.decodes + (if extra then 1 else 0) }
-      | .waiting w r => pure (r, { s with m := m, state := .waiting w })
+  | fuel + 1, s => loopBody (evaluateInternal fuel) s
 
 /-- `Evaluation::evaluate`. An error is sticky: the returned state is `Error(e)` and every later
 `evaluate`/`resume_with_*` returns `e` again. -/
